@@ -348,13 +348,29 @@ def refresh_schedule(prog: Program, rep) -> None:
         for mname, want in sched.items():
             m = c.methods.get(mname)
             if m is None:
-                raise AnalysisError(f"{cname}.{mname} has vanished")
+                inh = prog.lookup_method(c, mname)
+                if inh is None or inh.cls is None or not inh.cls.qualname.startswith(base) or inh.cls.name == "NewtonMethod":
+                    if want:
+                        raise AnalysisError(f"{cname}.{mname} has vanished")
+                    continue
+                m = inh
             ps = [p for p in m.params if p != "self"]
             got = []
             for recv in ("func", "step_solver"):
                 for attr, args, node in _calls_on(m, recv):
                     got.append((f"{recv}.{attr}", args, node))
-            got.sort(key=lambda g: (g[2].lineno, g[2].col_offset))
+            # evaluation order: statement order, and inside a statement arguments before the call they are passed to
+            eval_pos = {}
+
+            def _number(n, c=[0]):
+                for ch in ast.iter_child_nodes(n):
+                    if isinstance(ch, (ast.FunctionDef, ast.AsyncFunctionDef, ast.Lambda, ast.ClassDef)):
+                        continue
+                    _number(ch, c)
+                c[0] += 1
+                eval_pos[id(n)] = c[0]
+            _number(m.node)
+            got.sort(key=lambda g: eval_pos.get(id(g[2]), 0))
             norm = []
             for name, args, node in got:
                 a2 = []
@@ -367,11 +383,40 @@ def refresh_schedule(prog: Program, rep) -> None:
                     norm.append((name, a2))
             # in __init__, self.func is step_solver.func and self.step_solver the parameter
             norm = [(nm, [x.replace("step_solver.func", "self.func") for x in ar]) for nm, ar in norm]
+            if mname == "__init__":
+                # NewtonMethod.__init__ stores (orig_iterate, dt, rho, tau) unchanged (checked below), so after the super().__init__
+                # call self.rho / self.tau ARE the parameters
+                norm = [(nm, [{"self.rho": "rho", "self.tau": "tau", "self.dt": "dt", "self.orig_iterate": "orig_iterate"}.get(x, x) for x in ar]) for nm, ar in norm]
             want_n = [(nm, list(ar)) for nm, ar in want]
             n += 1
             rep.check(norm == want_n, "newton-refresh-schedule", m.qualname, mname,
                       f"{cname}.{mname} refreshes exactly {want_n} (found {norm})", m.loc())
         # base class stores the constructor arguments under the names used above
+    # every variant hands its own (orig_iterate, dt, rho, tau) on to the constructor of its base class, up to NewtonMethod
+    for cname in table:
+        c = prog.cls(base + cname)
+        for k in [c] + [b for b in prog.mro(c)[1:] if b.qualname.startswith(base) and b.name != "NewtonMethod"]:
+            ini = k.methods.get("__init__")
+            if ini is None:
+                continue
+            sup = [x for x in own_nodes(ini.node) if isinstance(x, ast.Call) and isinstance(x.func, ast.Attribute) and x.func.attr == "__init__" and U(x.func.value) == "super()"]
+            parent = None
+            for b in prog.mro(k)[1:]:
+                if "__init__" in b.methods:
+                    parent = b.methods["__init__"]
+                    break
+            if len(sup) != 1 or parent is None:
+                raise AnalysisError(f"{k.name}.__init__ does not call super().__init__ exactly once")
+            b_ = bind_args(parent, sup[0])
+            if b_ is None:
+                rep.fail("newton-refresh-schedule", ini.qualname, short(facts_for(ini).stmt_of(sup[0]).stmt), "VIOLATED: the super().__init__ call does not fit the base constructor", ini.loc(sup[0]))
+                continue
+            for pn in ("orig_iterate", "dt", "rho", "tau"):
+                if pn in parent.params and pn in ini.params:
+                    got_ = b_.get(pn)
+                    okp = isinstance(got_, ast.Name) and got_.id == pn
+                    rep.check(okp, "newton-refresh-schedule", ini.qualname, f"super().__init__(.. {pn} ..)",
+                              f"{k.name}.__init__ hands its own `{pn}` on to its base class (found {U(got_) if isinstance(got_, ast.AST) else 'the default'}), so self.{pn} used in step() is the constructor's value", ini.loc(sup[0]))
     nm = prog.func(base + "NewtonMethod.__init__")
     st = {U(t): U(x.value) for x in own_nodes(nm.node) if isinstance(x, ast.Assign) for t in x.targets}
     ok = st.get("self.rho") == "rho" and st.get("self.tau") == "tau" and st.get("self.orig_iterate") == "orig_iterate" and st.get("self.dt") == "dt"
